@@ -96,7 +96,23 @@ fn finish(v: u8, family: &'static str, mut e: Ev, room: &Room, f: &mut dyn FnMut
     if e.prev_events.is_empty() && e.ty != "m.room.create" {
         e.prev_events = vec!["$prev:s1".to_owned()];
     }
+    // a membership event other than a join that still carries `join_authorised_via_users_server` (copied
+    // from the join content by a client, say): the rules and the selection only look at that key for joins
+    let mut with_via = None;
+    if e.ty == "m.room.member" {
+        let mut c = e.content_value();
+        let not_join = c.get("membership").and_then(Value::as_str).is_some_and(|m| m != "join");
+        if not_join && c.get("join_authorised_via_users_server").is_none() {
+            c["join_authorised_via_users_server"] = json!(VIA);
+            let mut e2 = e.clone();
+            e2.content = c.to_string();
+            with_via = Some(e2);
+        }
+    }
     f(Case { v, family, ev: e, state: room.state.clone(), tpi_sig_valid: false });
+    if let Some(e2) = with_via {
+        f(Case { v, family, ev: e2, state: room.state.clone(), tpi_sig_valid: false });
+    }
 }
 
 fn member_ev(sender: &str, target: &str, content: Value) -> Ev {
@@ -187,6 +203,14 @@ fn representative_events(sender: &str) -> Vec<Ev> {
         member_ev(sender, sender, json!({"membership": "join"})),
         ev("$new:s1", sender, "m.room.topic", Some(""), json!({"topic": "t"})),
         ev("$new:s1", sender, "m.room.power_levels", Some(""), json!({"users": {CREATOR: 100}})),
+        // types with a rule of their own that ends in "allow" (aliases in v1-5) or that is decided
+        // late (redaction): the common rules must have been applied before those
+        ev("$new:s1", sender, "m.room.aliases", Some(sender.split_once(':').map(|x| x.1).unwrap_or("")), json!({"aliases": []})),
+        {
+            let mut e = ev("$new:s1", sender, "m.room.redaction", None, json!({"redacts": "$old:s1"}));
+            e.redacts = Some("$old:s1".to_owned());
+            e
+        },
     ]
 }
 
